@@ -37,7 +37,7 @@ META = {
     "reach": False,
 }
 SIZES = {
-    "quick": dict(pairs_per_group=8, explore_shards=10, gran="line", two=0, three=0, stress_threads=8, stress_rounds=30, cold=3, budget=3000),
+    "quick": dict(pairs_per_group=8, explore_shards=14, gran="line", two=0, three=0, stress_threads=8, stress_rounds=30, cold=3, budget=4000),
     "thorough": dict(pairs_per_group=30, explore_shards=14, gran="instr", two=150, three=40, stress_threads=16, stress_rounds=200, cold=24, budget=60000),
 }
 _POOL = {}
@@ -61,6 +61,27 @@ def groups_of(p):
     return g
 
 
+def _class_cover(p, method, cand):
+    from vf.ref import germany as GE  # noqa: PLC0415
+
+    def cls(i):
+        a = (p[i].get("components") or [""])[0]
+        if len(a) != 10 or not a.isdigit() or method not in GE.METHODS:
+            return ("odd",)
+        r = GE.facts(method, a).get("r")
+        return (GE.verdict(method, a), "r0" if r == 0 else "r1" if r == 1 else "rx", a[8] == a[9])
+
+    first, seen = [], set()
+    for a, b in cand:
+        k = (cls(a), cls(b))
+        if k[0] != k[1] and k not in seen:
+            seen.add(k)
+            first.append((a, b))
+    # combinations involving remainder 1 and wrong digits first (the stateful methods branch on exactly that)
+    first.sort(key=lambda ab: 0 if "r1" in (cls(ab[0])[1:2] + cls(ab[1])[1:2]) else 1)
+    return first
+
+
 def pair_plan(p, tier, rng):
     """Ordered pairs (i, j) of descriptor indexes that share an object."""
     sz = SIZES[tier]
@@ -72,10 +93,15 @@ def pair_plan(p, tier, rng):
         if fam in ("multi", "shared"):
             cand = [(a, b) for a in ids for b in ids if a != b]
             rng.shuffle(cand)
-            out += [(name, a, b) for a, b in cand[: 3 if tier == "quick" else 12]]
+            out += [(name, a, b) for a, b in cand[: (3 if fam == "multi" else 2) if tier == "quick" else 12]]
         elif fam in ("algo", "api", "nat"):
             cand = [(a, b) for a in ids for b in ids if a != b]
             rng.shuffle(cand)
+            if name.startswith("algo:DE:"):
+                # pairs whose two calls differ in what the method remembers between its steps come first: one pair
+                # per ordered combination of (verdict, remainder class 0 / 1 / other, equal last two digits)
+                cand = _class_cover(p, name[8:], cand) + cand
+                cand = list(dict.fromkeys(cand))
             out += [(name, a, b) for a, b in cand[: sz["pairs_per_group"] if fam == "algo" else max(2, sz["pairs_per_group"] // 4)]]
         elif fam in ("listed", "code", "seed", "gen", "text", "bbanvalue"):
             cand = [(a, b) for a in ids for b in ids if a != b]
@@ -217,7 +243,7 @@ def run_explore(shard, mon, S, p):
     rng = env.rng("C14", shard["_name"])
     traces = set()
     budget = sz["budget"] if gran == "line" else max(2000, sz["budget"] // 3)
-    order = sorted(shard["pairs"], key=lambda x: 0 if x[0].startswith(("multi", "algo-unknown", "shared")) else 1 if x[0].startswith(("algo", "api", "nat")) else 2)
+    order = sorted(shard["pairs"], key=lambda x: 0 if x[0].startswith(("multi", "algo-unknown")) else 1 if x[0].startswith("algo") else 2 if x[0].startswith("shared") else 3 if x[0].startswith(("api", "nat")) else 4)
     try:
         for name, a, b in order:
             if mon.evaluations >= budget:
